@@ -490,8 +490,22 @@ func (e *SEnv) evalBin(n *SBin) Val {
 }
 
 func (e *SEnv) evalQuant(n *SQuant) Val {
-	lo, hi := e.intOf(e.eval(n.Lo)), e.intOf(e.eval(n.Hi))
 	bv := BoundVar(n.Var)
+	var guardOf func() Term
+	if n.Keys != nil {
+		m := e.eval(n.Keys)
+		if m.T == nil {
+			sfail("keys(): map expected")
+		}
+		if _, ok := m.T.Underlying().(*types.Map); !ok {
+			sfail("keys(): map expected")
+		}
+		dom := Select(e.r.mapDom(e.st, m), m.C[0])
+		guardOf = func() Term { return And(Ne(m.C[0], Zero), Select(dom, bv)) }
+	} else {
+		lo, hi := e.intOf(e.eval(n.Lo)), e.intOf(e.eval(n.Hi))
+		guardOf = func() Term { return And(Le(lo, bv), Lt(bv, hi)) }
+	}
 	prev, had := e.bound[n.Var]
 	e.bound[n.Var] = bv
 	outer := e.facts
@@ -505,7 +519,7 @@ func (e *SEnv) evalQuant(n *SQuant) Val {
 	} else {
 		delete(e.bound, n.Var)
 	}
-	guard := And(Le(lo, bv), Lt(bv, hi))
+	guard := guardOf()
 	if len(inner) > 0 {
 		e.facts = append(e.facts, Forall([]Term{bv}, Implies(guard, And(inner...))))
 	}
@@ -629,6 +643,50 @@ func (e *SEnv) evalCall(n *SCall) Val {
 			sfail("calledwith: bad argument index")
 		}
 		return specBool(And(rec.validTerm(), e.specEq(rec.args[idx.V.Int64()], e.eval(n.Args[2]))))
+	case "icall": // icall("Method", recv, args...): the result a read-only interface method returns in this state
+		mname := n.Args[0].(*SStrL).V
+		recv := e.eval(n.Args[1])
+		if recv.T == nil || !isIface(recv.T) {
+			sfail("icall: interface value expected")
+		}
+		var margs []Val
+		for _, a := range n.Args[2:] {
+			margs = append(margs, e.eval(a))
+		}
+		ms := types.NewMethodSet(recv.T)
+		var fn *types.Func
+		for i := 0; i < ms.Len(); i++ {
+			if ms.At(i).Obj().Name() == mname {
+				fn, _ = ms.At(i).Obj().(*types.Func)
+			}
+		}
+		if fn == nil {
+			sfail("icall: no method %s on %v", mname, recv.T)
+		}
+		sig := fn.Type().(*types.Signature)
+		if sig.Results().Len() != 1 {
+			sfail("icall: %s must have exactly one result", mname)
+		}
+		if !e.r.pureIfaceMethod(typeKey(recv.T), mname) {
+			sfail("icall: %s is not declared read-only (pureiface)", mname)
+		}
+		return e.r.pureIfaceResult(e.st, typeKey(recv.T), mname, recv, margs, sig.Results().At(0).Type())
+	case "visited": // visited(k): key k has already been produced by the (innermost active) map range loop
+		if e.frame == nil || len(e.frame.iters) == 0 {
+			sfail("visited(): no map range loop in scope")
+		}
+		var id string
+		for _, v := range e.frame.iters {
+			if v > id {
+				id = v
+			}
+		}
+		vis, ok := e.st.ghost[id]
+		if !ok {
+			sfail("visited(): iterator state missing")
+		}
+		k := e.eval(n.Args[0])
+		return specBool(Select(vis, e.r.mapKeyTerm(e.st, k)))
 	case "argsat": // argsat("T.F", i, "P_pred"): the most recent call of T.F passed an argument i satisfying P_pred (false if never called)
 		rec, ok := e.st.lastCall[n.Args[0].(*SStrL).V]
 		if !ok {
